@@ -546,8 +546,9 @@ class Body:
                 return ("un", "Not", args[0])
             if tr in ("std::cmp::PartialEq", "std::cmp::PartialOrd") and name in CMP_TRAIT_METHODS and len(args) == 2:
                 return ("bin", CMP_TRAIT_METHODS[name], args[0], args[1])
-            return ("call", name, qual, args)
-        return ("call", "<indirect>", str(self.e_operand(f, depth + 1, visiting)), args)
+            targs = tuple(short_ty(a) for a in fn.get("args", []))
+            return ("call", name, qual, args, targs)
+        return ("call", "<indirect>", str(self.e_operand(f, depth + 1, visiting)), args, ())
 
     def e_rvalue(self, r, depth=0, visiting=None):
         k = r["k"]
